@@ -22,7 +22,9 @@ type VerifHooks struct {
 	EvalEnter func(r *Runtime, nesting int)
 	// TailElide runs in funCall where a tail-recursion mark is created; frames
 	// are the npop terminal frames (innermost last) about to be collapsed.
-	TailElide func(r *Runtime, frames []CallFrame)
+	// callee is the frame just pushed for the call that triggers the elision
+	// (it is popped again at once: the reused frame carries the call on).
+	TailElide func(r *Runtime, frames []CallFrame, callee CallFrame)
 }
 
 var verifHooks atomic.Pointer[VerifHooks]
@@ -64,7 +66,7 @@ func verifOnTailElide(r *Runtime, npop int) {
 		}
 		frames := make([]CallFrame, npop)
 		copy(frames, r.Stack.Frames[n-npop:n])
-		h.TailElide(r, frames)
+		h.TailElide(r, frames, r.Stack.Frames[n])
 	}
 }
 
